@@ -6,6 +6,13 @@ import vlib
 
 LEVEL = "model_checking"
 
+MANIFEST = dict(
+   engine="tlc-bip", path="spec/Bip",
+   technique="TLA+ monitor + implementation model checked exhaustively by TLC; TLC-generated transition cover and random histories replayed into the real BipBuffer; recorded traces validated by TLC against the monitor",
+   text="Exhaustive TLC check of the index machine (BipImpl) composed with the property monitor (BipMon) for every buffer size in the tier's range and all argument values 0..size+1, unbounded history length (finite state). Every transition of that state graph is replayed on the real sonic.BipBuffer (shortest path + edge) and the recorded trace - offsets, lengths and token contents of every returned slice, getters after every call - is validated by TLC against the monitor; seeded random long histories on larger sizes are added. Verdicts come only from recorded real-code traces.",
+   note="Trusted: TLC, the Go replay driver (offset from slice capacity, token writer), JSON trace I/O. Sizes above the tier's range are covered by random histories only.",
+   design_ref="5/C10")
+
 
 def _validate(ck, sw, name, beh, label):
     trace = os.path.join(ck.work, "trace_%s.ndjson" % name)
